@@ -145,7 +145,33 @@ pub fn edit_signed(signed: &mut Value, field: &str, scn: &Value, rng: &mut impl 
         o.insert(newk(k), v);
         true
     };
+    // the first string value (or member name) that holds `from` gets `to` in its place
+    fn swap_char(v: &mut Value, keys: bool, from: char, to: char) -> bool {
+        match v {
+            Value::String(s) if !keys && s.contains(from) => {
+                *s = s.replacen(from, &to.to_string(), 1);
+                true
+            }
+            Value::Array(a) => a.iter_mut().any(|x| swap_char(x, keys, from, to)),
+            Value::Object(o) => {
+                if keys {
+                    if let Some(k) = o.keys().find(|k| k.contains(from)).cloned() {
+                        let val = o.remove(&k).unwrap();
+                        o.insert(k.replacen(from, &to.to_string(), 1), val);
+                        return true;
+                    }
+                }
+                o.iter_mut().any(|(_, x)| swap_char(x, keys, from, to))
+            }
+            _ => false,
+        }
+    }
     match field {
+        "high_twin_value" => {
+            if rng.gen_bool(0.5) { swap_char(signed, false, '\u{141}', 'A') } else { swap_char(signed, false, '\u{4e42}', 'B') }
+        }
+        "high_twin_key" => swap_char(signed, true, '\u{141}', 'A'),
+        "high_twin_astral" => swap_char(signed, false, '\u{1f643}', 'C'),
         "name" => {
             if is_link {
                 bump_str(&mut signed["name"])
@@ -616,6 +642,9 @@ impl Ctx {
         }
         let kind = scn["doc"].as_str().unwrap();
         let s = instantiate(&scn["s"], &mut self.rng);
+        // the "high twin" edits need characters beyond U+00FF in the content to begin with
+        let twin = scn["ops"].as_array().unwrap().iter().any(|o| o["op"] == "edit" && o["field"].as_str().map(|f| f.starts_with("high_twin")).unwrap_or(false));
+        let s = if twin { format!("{s}\u{141}\u{4e42}\u{1f643}") } else { s };
         let base = if scn["near"] == true {
             // string near-collision scenario: the string field holds exactly `from`
             let from = instantiate(&scn["from"], &mut self.rng);
